@@ -51,6 +51,11 @@ fn cmp_with(r: &RefOut, o: &ImplOut, sm: &SpanMap) -> Result<(), (String, String
         let sig = if o.st.log.len() > r.log.len() { "C05/state-leaked" } else { "C05/state-lost" };
         return Err((sig.into(), format!("final user-state log {:?} but the surviving path pushed {:?}", o.st.log, r.log)));
     }
+    // the token-folding part of the state (on_token / on_save / on_rewind): every repositioning of the input must
+    // have been matched by the hooks, so after a parse of the whole input it is the fold of exactly that input
+    if r.accepted && (o.st.n, o.st.h) != r.final_state {
+        return Err(("C05/state-position".into(), format!("final user state (count {}, hash {:x}) but the surviving path consumed tokens folding to (count {}, hash {:x}): some repositioning of the input was not matched by on_save / on_rewind", o.st.n, o.st.h, r.final_state.0, r.final_state.1)));
+    }
     Ok(())
 }
 
